@@ -523,4 +523,8 @@ def clear_pair(code, spec, limit=40):
 def rational_close(code, spec, rel=Fraction(5, 10 ** 14)):
     c, s, used = clear_pair(normal(code), normal(spec))
     ok, bad = close(c, s, rel)
+    if ok:
+        # guard against an unsound normal form: evaluate the un-normalised sides numerically
+        from . import numguard
+        numguard.check_equal(code, spec)
     return ok, bad, used
